@@ -62,7 +62,9 @@ class SerialRunner(Runner):
         self.task_submissions.clear()
 
     def stop(self) -> None:
-        pass
+        # Nothing is running in parallel, but nothing that is still
+        # queued may be started after stopping.
+        self.task_submissions.clear()
 
     def close(self) -> None:
         pass
